@@ -32,6 +32,7 @@ func init() {
 			"C06.R4 gate dominance in the publishing function",
 			"C06.R5 universal has-writer guard loop dominates the installers",
 			"C06.R6 who-may-write Active / Paused / pause flag",
+			"C06.R2e the copy of the writing state made for clients assigns every exported bool field (active, paused, one flag per file type) from the field of the same name",
 			"C06.R8 the activity predicate of the writing state returns the Active field unaltered (it guards record-length changes and side files as 'files are open')",
 			"C06.R7 new numbered directory: success return dominated by os.IsNotExist(true) and MkdirAll; the pattern flows to all file names and to the reported state",
 		},
@@ -70,6 +71,7 @@ func runC06(p *Prog, r *Report) {
 	r.MinInstances["C06.R8"] = 1
 	c.ruleR1()
 	c.ruleR2()
+	c.ruleR2e()
 	c.ruleR3()
 	c.ruleR4()
 	c.ruleR5()
@@ -381,6 +383,7 @@ func (c *c06ctx) ruleR2() {
 			if c.setsWS(callee, "Active", "false") && !c.setsWS(callee, "Active", "true") {
 				r.Fn(FuncName(fn))
 				missing := []string{}
+				mixedWhy := ""
 				for _, h := range c.handles {
 					ok := false
 					for _, l := range loops {
@@ -388,7 +391,16 @@ func (c *c06ctx) ruleR2() {
 							continue
 						}
 						Instrs(fn, func(x ssa.Instruction) {
-							if l.Contains(x.Block()) && l.EveryIteration(x.Block()) && callOnElem(x, l, func(f *ssa.Function) bool { return c.removers[f] == h }) {
+							if l.Contains(x.Block()) && l.EveryIteration(x.Block()) && callOnElem(x, l, func(f *ssa.Function) bool {
+								if c.removers[f] == h {
+									return true
+								}
+								okH, why := c.helperRemoves(f, h)
+								if why != "" {
+									mixedWhy = why
+								}
+								return okH
+							}) {
 								ok = true
 							}
 						})
@@ -397,9 +409,13 @@ func (c *c06ctx) ruleR2() {
 						missing = append(missing, h)
 					}
 				}
+				extraWhy := ""
+				if mixedWhy != "" {
+					extraWhy = " (" + mixedWhy + ")"
+				}
 				r.Check(len(missing) == 0, "C06.R2c", "reported inactive in "+FuncName(fn), p.InstrPos(in),
 					"every writer handle is removed from every processor before the state reports inactive",
-					"the state is reported inactive (and may return an error) before the "+strings.Join(missing, ", ")+" writers were removed from every processor: channels keep writing while the state says stopped")
+					"the state is reported inactive (and may return an error) before the "+strings.Join(missing, ", ")+" writers were removed from every processor"+extraWhy+": channels keep writing while the state says stopped")
 			}
 			if c.setsWS(callee, "Active", "true") {
 				r.Fn(FuncName(fn))
@@ -1325,9 +1341,64 @@ func (c *c06ctx) ruleR9() {
 		r.Fn(FuncName(fn))
 		for _, o := range ops {
 			bad := ""
+			// ownAbsent: the successor index of an If that is taken when this format's own writer is
+			// absent (-1: the test is not a plain presence test of this format)
+			ownAbsent := func(iff *ssa.If, h string) int {
+				cond := iff.Cond
+				neg := false
+				if u, ok := cond.(*ssa.UnOp); ok && u.Op == token.NOT {
+					cond, neg = u.X, true
+				}
+				call, ok := cond.(*ssa.Call)
+				if !ok || call.Call.StaticCallee() == nil || c.hasPred[call.Call.StaticCallee()] != h {
+					return -1
+				}
+				if neg {
+					return 0
+				}
+				return 1
+			}
 			for _, cd := range controlDependencesClosure(o.in.Block()) {
 				ab := about(cd.If.Cond)
 				if len(ab) == 0 || ab[o.h] {
+					continue
+				}
+				// a test about another format that can only skip this step when this format's own
+				// writer is absent anyway (`if !(has22 || has3 || hasOFF) { return }`) is harmless
+				harmless := false
+				for _, ct := range controllingIfs(cd.If.Block()) {
+					if k := ownAbsent(ct.If, o.h); k >= 0 && k == ct.Branch {
+						harmless = true
+					}
+				}
+				if !harmless {
+					x := o.in.Block()
+					seenB := map[*ssa.BasicBlock]bool{}
+					var escapes func(b *ssa.BasicBlock) bool
+					escapes = func(b *ssa.BasicBlock) bool {
+						if b == x || seenB[b] {
+							return false
+						}
+						seenB[b] = true
+						if len(b.Succs) == 0 {
+							_, isPanic := b.Instrs[len(b.Instrs)-1].(*ssa.Panic)
+							return !isPanic
+						}
+						for i, sc := range b.Succs {
+							if iff, ok := b.Instrs[len(b.Instrs)-1].(*ssa.If); ok && ownAbsent(iff, o.h) == i {
+								continue // this way is taken only when the own writer is absent
+							}
+							if escapes(sc) {
+								return true
+							}
+						}
+						return false
+					}
+					if !escapes(cd.If.Block().Succs[1-cd.Branch]) {
+						harmless = true
+					}
+				}
+				if harmless {
 					continue
 				}
 				var hs []string
@@ -1494,4 +1565,162 @@ func trueImpliesFlagFalse(h *ssa.Function, flag string) bool {
 		}
 	})
 	return all && n > 0
+}
+
+// helperRemoves: g is a method of the publisher that removes the writer handle h for its caller:
+// it calls the remover of h on its own receiver on every path, except paths left under a test
+// that is computed from the handle fields alone (nothing to remove).  why is set when a path that
+// skips the remover is chosen by other state (the pause flag): then the helper is not a remover.
+func (c *c06ctx) helperRemoves(g *ssa.Function, h string) (bool, string) {
+	if g == nil || len(g.Blocks) == 0 || g.Signature.Recv() == nil || typeName(g.Signature.Recv().Type()) != c.pub.Obj().Name() || c.removers[g] != "" {
+		return false, ""
+	}
+	isRem := func(in ssa.Instruction) bool {
+		cc := CallOf(in)
+		return cc != nil && cc.StaticCallee() != nil && c.removers[cc.StaticCallee()] == h && len(cc.Args) > 0 && cc.Args[0] == ssa.Value(g.Params[0])
+	}
+	any := false
+	Instrs(g, func(in ssa.Instruction) { any = any || isRem(in) })
+	if !any {
+		return false, ""
+	}
+	isHandle := map[string]bool{}
+	for _, hh := range c.handles {
+		isHandle[hh] = true
+	}
+	for _, esc := range ReachAvoiding(g, nil, isRem, isReturn) {
+		// the conditions under which this return is reached without removing
+		okEsc := false
+		for _, ct := range controllingIfs(esc.Block()) {
+			fields := map[string]bool{}
+			c.pubFieldsOf(ct.If.Cond, fields, 0)
+			if len(fields) == 0 {
+				continue
+			}
+			only := true
+			var other []string
+			for f := range fields {
+				if !isHandle[f] {
+					only = false
+					other = append(other, f)
+				}
+			}
+			if only {
+				okEsc = true
+			} else {
+				sort.Strings(other)
+				return false, FuncName(g) + " skips the removal under a test at " + c.p.InstrPos(ct.If) + " that depends on " + strings.Join(other, ", ") + ", not only on whether a writer is installed"
+			}
+		}
+		if !okEsc {
+			return false, ""
+		}
+	}
+	return true, ""
+}
+
+// pubFieldsOf: the fields of the publisher a condition is computed from (through predicate methods).
+func (c *c06ctx) pubFieldsOf(v ssa.Value, out map[string]bool, d int) {
+	if v == nil || d > 8 {
+		return
+	}
+	if o, f, _, ok := FieldOf(v); ok && o == c.pub.Obj().Name() {
+		out[f] = true
+		return
+	}
+	if call, ok := v.(*ssa.Call); ok {
+		if g := call.Call.StaticCallee(); isModuleFn(g) && g.Signature.Recv() != nil && typeName(g.Signature.Recv().Type()) == c.pub.Obj().Name() {
+			Instrs(g, func(in ssa.Instruction) {
+				if u, ok := in.(*ssa.UnOp); ok {
+					if o, f, _, okf := FieldOf(u); okf && o == c.pub.Obj().Name() {
+						out[f] = true
+					}
+				}
+				if c2, ok := in.(*ssa.Call); ok {
+					c.pubFieldsOf(c2, out, d+1)
+				}
+			})
+		}
+		return
+	}
+	if in, ok := v.(ssa.Instruction); ok {
+		var ops []*ssa.Value
+		for _, o := range in.Operands(ops) {
+			c.pubFieldsOf(*o, out, d+1)
+		}
+	}
+}
+
+// ---- R2e: the reported copy of the writing state carries every flag -------------------------
+
+// ruleR2e: clients are told the writing state through a copy made field by field (open files and
+// tickers are left out on purpose).  Every exported bool field of the writing state - active,
+// paused, one flag per file type - must be copied from the field of the same name; a flag that
+// is left out is reported as false whatever the channels are doing.
+func (c *c06ctx) ruleR2e() {
+	p, r := c.p, c.r
+	wsName := c.ws.Obj().Name()
+	st := c.ws.Underlying().(*types.Struct)
+	var flags []string
+	for i := 0; i < st.NumFields(); i++ {
+		f := st.Field(i)
+		if b, ok := f.Type().Underlying().(*types.Basic); ok && b.Kind() == types.Bool && f.Exported() {
+			flags = append(flags, f.Name())
+		}
+	}
+	n := 0
+	for _, fn := range p.LibFuncs() {
+		if fn.Signature.Recv() == nil || typeName(fn.Signature.Recv().Type()) != wsName || fn.Signature.Results().Len() != 1 || typeName(fn.Signature.Results().At(0).Type()) != wsName {
+			continue
+		}
+		// the copy: a WritingState made here and returned
+		var cp *ssa.Alloc
+		Instrs(fn, func(in ssa.Instruction) {
+			if a, ok := in.(*ssa.Alloc); ok && typeName(a.Type()) == wsName {
+				cp = a
+			}
+		})
+		if cp == nil {
+			continue
+		}
+		copied := map[string]string{}
+		for _, ref := range *cp.Referrers() {
+			fa, ok := ref.(*ssa.FieldAddr)
+			if !ok {
+				continue
+			}
+			name := st.Field(fa.Field).Name()
+			for _, r2 := range *fa.Referrers() {
+				s2, ok := r2.(*ssa.Store)
+				if !ok || s2.Addr != ssa.Value(fa) {
+					continue
+				}
+				if o, f, base, okf := FieldOf(s2.Val); okf && o == wsName && base == ssa.Value(fn.Params[0]) {
+					copied[name] = f
+				} else {
+					copied[name] = "?"
+				}
+			}
+		}
+		if len(copied) < 3 {
+			continue
+		}
+		n++
+		r.Fn(FuncName(fn))
+		for _, f := range flags {
+			from, has := copied[f]
+			key := FuncName(fn) + ": the reported copy carries " + f
+			switch {
+			case !has:
+				r.Bad("C06.R2e", key, p.Pos(fn.Pos()), "the copy of the writing state that clients are told leaves out "+f+": it is reported as false whatever the channels are doing (a run that writes that file type is reported as not writing it)")
+			case from != f:
+				r.Bad("C06.R2e", key, p.Pos(fn.Pos()), "the reported "+f+" is filled from "+from+", not from the field of the same name")
+			default:
+				r.OK("C06.R2e", key, p.Pos(fn.Pos()), "copied from the same field")
+			}
+		}
+	}
+	if n == 0 {
+		r.Unk("C06.R2e", "reported copy of the writing state", "-", "no method of the writing state returns a field-by-field copy")
+	}
 }
